@@ -243,7 +243,9 @@ def shard_log(arg) -> E.Tally:
         set_pkt_logging(PK.PKT_LOGGER, file_name=path)
         live = []  # what the live session accepted
         k = 0
-        for fr in mine:
+        for fi, fr in enumerate(mine):
+            if fi and fi % 40 == 0:  # the packet log is configured again for the same file in mid-session (every new Gateway does that)
+                set_pkt_logging(PK.PKT_LOGGER, file_name=path)
             for stamp in STAMPS:
                 annot = ANNOTS[k % len(ANNOTS)]
                 rssi = ("045", "000", "---", "...")[k % 4]
